@@ -8,15 +8,16 @@ import warnings
 import numpy as np
 from hypothesis import strategies as st
 
-from .. import common, gen as G, expr as X
+from .. import common, gen as G, expr as X, loopvmap as LV
 from ..common import Violation
 from . import c01
 from ._base import standard_run, standard_worker
 
 PROP = "C17"
 RULE = (
-    "For generated calls of every operation family and numpy-family backend the code returned with graph=True is requested "
-    "for the drawn axis lengths and for 3 further length assignments in which every length > 1 is re-drawn from 2..64 "
+    "For generated calls of every operation family on every numpy-family backend, on the vmap adapter chain over the loop-vmap double (backend numpy.loopvmap) and for functions adapted with adapt_with_vmap (nested function definitions) the code returned with graph=True is requested "
+    "for the drawn axis lengths and for 4 further length assignments in which every length > 1 is re-drawn (from 2..64; twice from 2..6, "
+    "so that lengths coincide with shifts, numeric axes and each other; once all equal) "
     "(length-1 axes, numeric literals and structural coordinate counts stay; keyword sizes follow). Oracle: (1) the Python AST "
     "of each text contains only imports, function definitions, assignments, calls, attribute/subscript/slice access, "
     "tuples/lists/dicts, names, constants, unary/binary/compare operators, assert and return - no loops, conditionals, "
@@ -25,7 +26,7 @@ RULE = (
     "distinct by canonical call."
 )
 ASSUMPTIONS = [
-    "only numpy-family backends are importable; vmap-style nested function definitions are allowed by the whitelist but not produced here",
+    "only numpy is importable; vmap-style code comes from einx's jax front-end run over numpy + a loop vmap (einxverif/loopvmap.py)",
     "tensor arguments are zero-stride placeholder arrays of the requested shapes (compilation only looks at shapes)",
 ]
 
@@ -37,16 +38,32 @@ ALLOWED = (
 )  # fmt: skip
 
 
+C17_BACKENDS = [None, "numpy", "numpy.numpylike", "numpy.einsum", LV.NAME, LV.NAME]
+_VM = []
+
+
+def _vm_user(*xs, scale=1.0):  # never executed: only graph=True is requested
+    raise AssertionError("the adapted function must not run for graph=True")
+
+
 @st.composite
-def c17_case(draw, tier="quick"):
-    base = draw(G.call_case(quick=(tier == "quick")))
-    seeds = [draw(st.integers(0, 2**20)) for _ in range(3)]
+def c17_case(draw, tier="quick", k=0):
+    if draw(st.integers(0, 7)) == 0:
+        base = draw(G.call_case(ops=["vmapop"], quick=True, backends=[None]))
+        base["adapter"] = "vmap"
+    else:
+        base = draw(G.stratified_case(k, quick=(tier == "quick"), backends=C17_BACKENDS))
+    seeds = [draw(st.integers(0, 2**20)) for _ in range(4)]
     return {"base": base, "seeds": seeds}
 
 
-def rescale(base, seed):
-    """Re-draw every axis length > 1 (named axes only; structural and numeric axes stay)."""
+def rescale(base, seed, mode="wide"):
+    """Re-draw every axis length > 1 (named axes only; structural and numeric axes stay).
+
+    mode "wide": lengths from 2..64; "small": from 2..6 (coincidences with small integer arguments such as shifts, numeric
+    axes and other axes' lengths); "equal": one common length for every re-drawn axis."""
     rng = np.random.default_rng(seed)
+    common_len = int(rng.integers(2, 9))
     env = dict(base["env"])
     protected = set()
     fam = G.family_of(base["op"])
@@ -64,7 +81,7 @@ def rescale(base, seed):
     for k, v in env.items():
         if k.startswith("#") or k in protected or v == 1:
             continue
-        env[k] = int(rng.integers(2, 65))
+        env[k] = int(rng.integers(2, 65)) if mode == "wide" else (int(rng.integers(2, 7)) if mode == "small" else common_len)
     # bound the placeholder sizes (zero-stride anyway) and keep everything exact
     c = copy.deepcopy(base)
     c["env"] = env
@@ -93,6 +110,12 @@ def placeholder(shape, kind):
 def get_code(case):
     env = case["env"]
     arrays = [placeholder(X.shape_of(X.expand(e), env), d["kind"]) for e, d in zip(case["ins"], case["data"])]
+    if case.get("backend") == LV.NAME:
+        LV.backend()
+    if case.get("adapter") == "vmap":
+        if not _VM:
+            _VM.append(LV.adapt_with_vmap(_vm_user))
+        return _VM[0](case["desc"], *arrays, graph=True, **case["sizes"])
     return c01.call_einx(case, arrays, graph=True)
 
 
@@ -115,7 +138,7 @@ def evaluate(rc, stats):
     import einx
 
     base = rc["base"]
-    variants = [base] + [rescale(base, s) for s in rc["seeds"]]
+    variants = [base] + [rescale(base, s, m) for s, m in zip(rc["seeds"], ["wide", "small", "equal", "small"])]
     codes = []
     for v in variants:
         try:
@@ -167,7 +190,7 @@ def replay_case(case):
 
 
 def make_strategy(tier, k):
-    return c17_case(tier)
+    return c17_case(tier, k)
 
 
 def worker(k, n, tier, seed, known_buckets, extra):
